@@ -185,6 +185,14 @@ def parseEv (l : String) : Ev :=
     match (kv "tests").toNat?, (kv "bad").toNat? with
     | some t, some b => .reent t b (kv "first")
     | _, _ => .malformed l
+  else if l.startsWith "holder " then
+    let kv (key : String) : String :=
+      match (toks l).find? (·.startsWith (key ++ "=")) with
+      | some t => (t.drop (key.length + 1)).toString
+      | none => ""
+    match (kv "tests").toNat?, (kv "bad").toNat? with
+    | some t, some b => .holder t b (kv "first")
+    | _, _ => .malformed l
   else .malformed l
 
 /-- `expect-abort <trace line>`: annotation carried by the witness inputs of OPEN KNOWN FINDINGS that need a whole
@@ -197,6 +205,11 @@ def modelEventsAux (lim : Limits) (scfg : StackCfg) : Option String → List Str
       -- the next program runs this many re-entrancy tests and every result equals its LPC reference
       match ((l.drop 13).toString.trimAscii.toString).toNat? with
       | some n => Ev.reent n 0 "" :: modelEventsAux lim scfg pending rest
+      | none => Ev.malformed l :: modelEventsAux lim scfg pending rest
+    else if l.startsWith "holder-expect " then
+      -- the next program runs this many error-path tests and every held value equals its independently built copy
+      match ((l.drop 14).toString.trimAscii.toString).toNat? with
+      | some n => Ev.holder n 0 "" :: modelEventsAux lim scfg pending rest
       | none => Ev.malformed l :: modelEventsAux lim scfg pending rest
     else
       match pending, l.startsWith "run " with
@@ -217,6 +230,7 @@ def render : Ev → String
   | .crash w => "crash " ++ w
   | .malformed l => "bad-line " ++ l
   | .reent t b f => s!"reent tests={t} bad={b}" ++ (if f.isEmpty then "" else " first=" ++ f)
+  | .holder t b f => s!"holder tests={t} bad={b}" ++ (if f.isEmpty then "" else " first=" ++ f)
 
 def runModel (lines : List String) : List String :=
   (modelEvents {} {} lines).map render
